@@ -153,6 +153,9 @@ def run_one(sid, tier):
     try:
         rc, o = sh("git apply --whitespace=nowarn %s" % os.path.join(d, "patch.diff"), cwd=wt)
         if rc != 0:
+            # /repo has moved on since the change was written (fix: commits): apply with fuzz
+            rc, o = sh("patch -p1 -F3 --no-backup-if-mismatch < %s" % os.path.join(d, "patch.diff"), cwd=wt)
+        if rc != 0:
             return sid, {"error": "apply failed"}
         env = dict(GOENV, VERIF_REPO=wt, VERIF_NOMIN="1", VERIF_EVIDENCE_DIR="/tmp/seedwt/evidence")
         if tier == "thorough":
